@@ -159,7 +159,9 @@ class SmtpSession(object):
 
     def RCPT(self, reply, address, params):
         self._call_validator('rcpt', reply, address, params)
-        if reply.code == '250':
+        # Any positive reply (250, 251 "will forward", 252) accepts the
+        # recipient in the client's eyes: it must be part of the envelope.
+        if reply.code.startswith('2'):
             assert self.envelope is not None
             self.envelope.recipients.append(address)
 
